@@ -15,6 +15,7 @@ import PromVerif.Drv.C02
 import PromVerif.Drv.C16
 import PromVerif.Drv.C12
 import PromVerif.Drv.Fam
+import PromVerif.Drv.Builtins
 namespace PromVerif.Drv
 
 def dispatch (m : String) (args : List String) : String :=
@@ -36,6 +37,7 @@ def dispatch (m : String) (args : List String) : String :=
   | "c16" => C16.handle args
   | "c12" => C12.handle args
   | "fam" => Fam.handle args
+  | "bi" => Builtins.handle args
   | _ => "err unknown-module"
 
 end PromVerif.Drv
